@@ -4,6 +4,7 @@
 //	vcheck replay <file>                    replay a violation file against the current tree
 //	vcheck selftest determinism [ID...]     same seed => same event log, across processes and GOMAXPROCS
 //	vcheck selftest seeded [id...]          every kept breaking change (seeded/) is reported
+//	vcheck selftest channels                the simulator's channel/select/timer emulation against Go's semantics
 //	vcheck selftest variants [id...]        every kept property-preserving re-implementation (variants/) stays silent
 //
 // It copies /repo's working tree to a scratch directory, instruments the copy,
@@ -563,6 +564,9 @@ func main() {
 	case "selftest":
 		if len(os.Args) > 2 && os.Args[2] == "seeded" {
 			os.Exit(selftestSeeded(os.Args[3:]))
+		}
+		if len(os.Args) > 2 && os.Args[2] == "channels" {
+			os.Exit(selftestChannels())
 		}
 		if len(os.Args) > 2 && os.Args[2] == "variants" {
 			os.Exit(selftestVariants(os.Args[3:]))
